@@ -20,13 +20,18 @@ func init() {
 	Register(&Scenario{Name: "c13", LivelockIsViolation: true, Prop: "C13", MaxSteps: 20000, Run: runC13})
 }
 
-var c13Addrs = []string{"127.0.0.1:9000", "127.0.0.1:9001", "[::]:9002"}
+var c13Addrs = []string{"127.0.0.1:9000", "127.0.0.1:9001", "[::]:9002", ":9003"}
 
 func runC13(rc *RunCtx) {
 	G := rc.G
 	simnet.NewWorld()
 	m := service.NewListenerManager()
 	nAddr := 1 + G.Draw(3)
+	addrs := append([]string(nil), c13Addrs...)
+	if G.Draw(3) == 0 {
+		// the host-less spelling the legacy per-port keys use comes first
+		addrs[0], addrs[3] = addrs[3], addrs[0]
+	}
 	nTasks := 2 + G.Draw(5)
 	type opRec struct {
 		task, idx int
@@ -47,7 +52,7 @@ func runC13(rc *RunCtx) {
 		preAddr[t] = map[string]bool{}
 		listens[t] = map[string]bool{}
 		for k := 0; k < n; k++ {
-			addr := c13Addrs[G.Draw(nAddr)]
+			addr := addrs[G.Draw(nAddr)]
 			preAddr[t][addr] = true
 			if G.Draw(2) == 0 {
 				ln, err := m.ListenStream(addr)
@@ -88,7 +93,7 @@ func runC13(rc *RunCtx) {
 		w := simnet.W()
 		for k := 0; k < nTraffic; k++ {
 			k := k
-			addr := c13Addrs[G.Draw(nAddr)]
+			addr := addrs[G.Draw(nAddr)]
 			j := jitter(G)
 			tcp := G.Draw(2) == 0
 			simrt.GoDaemon(fmt.Sprintf("c13-traffic-%d", k), func() {
@@ -123,7 +128,7 @@ func runC13(rc *RunCtx) {
 		}
 		var script []step
 		for k := 0; k < nOps; k++ {
-			script = append(script, step{G.Draw(3), c13Addrs[G.Draw(nAddr)]})
+			script = append(script, step{G.Draw(3), addrs[G.Draw(nAddr)]})
 			if script[k].kind == 2 {
 				closers[t] = true
 			} else {
@@ -222,27 +227,27 @@ func runC13(rc *RunCtx) {
 	rc.Phase = "usability"
 	// Every address must be usable again through the manager.
 	for i := 0; i < nAddr; i++ {
-		ln, err := m.ListenStream(c13Addrs[i])
+		ln, err := m.ListenStream(addrs[i])
 		if err != nil {
-			rc.Failf("unusable:ListenStream", "manager unusable after concurrent phase: ListenStream(%s): %v", c13Addrs[i], err)
+			rc.Failf("unusable:ListenStream", "manager unusable after concurrent phase: ListenStream(%s): %v", addrs[i], err)
 			continue
 		}
 		// ... and the handle obtained must work: one connection, one datagram
 		w := simnet.W()
-		ip, port := dialIP(c13Addrs[i])
+		ip, port := dialIP(addrs[i])
 		simrt.GoNamed("usability-connector", func() {
 			if c, err := w.Connect(nil, ip, port); err == nil {
 				c.Close()
 			}
 		})
 		if c, err := ln.AcceptStream(); err != nil {
-			rc.Failf("unusable:AcceptStream", "re-acquired stream handle on %s does not accept: %v", c13Addrs[i], err)
+			rc.Failf("unusable:AcceptStream", "re-acquired stream handle on %s does not accept: %v", addrs[i], err)
 		} else {
 			c.Close()
 		}
-		pc, err := m.ListenPacket(c13Addrs[i])
+		pc, err := m.ListenPacket(addrs[i])
 		if err != nil {
-			rc.Failf("unusable:ListenPacket", "manager unusable after concurrent phase: ListenPacket(%s): %v", c13Addrs[i], err)
+			rc.Failf("unusable:ListenPacket", "manager unusable after concurrent phase: ListenPacket(%s): %v", addrs[i], err)
 		} else {
 			src := net.IPv4(198, 18, 13, byte(1+i)).To4()
 			if ip.To4() == nil {
@@ -252,7 +257,7 @@ func runC13(rc *RunCtx) {
 				fs.WriteToUDP([]byte("usable?"), &net.UDPAddr{IP: ip, Port: port})
 				buf := make([]byte, 64)
 				if n, _, err := pc.ReadFrom(buf); err != nil || string(buf[:n]) != "usable?" {
-					rc.Failf("unusable:ReadFrom", "re-acquired packet handle on %s does not deliver: %q, %v", c13Addrs[i], buf[:n], err)
+					rc.Failf("unusable:ReadFrom", "re-acquired packet handle on %s does not deliver: %q, %v", addrs[i], buf[:n], err)
 				}
 				fs.Close()
 			}
